@@ -3,8 +3,8 @@
    correspondence harness and by the generated filter table gen/GenSnip.v). *)
 From Coq Require Import ZArith List Bool.
 From Coq Require Import QArith Qcanon.
-From PB Require Import lib.PySlice C14.Model C14.Proofs C14.Reflect C14.Methods C14.Inst C14.Shift C14.Grid C14.Rubber
-  C14.SnipTable gen.GenSnip.
+From PB Require Import lib.PySlice lib.Arr C14.Model C14.Proofs C14.Reflect C14.Methods C14.Inst C14.Shift C14.Shift2 C14.Grid C14.Rubber C14.Hull
+  C14.SnipTable gen.GenSnip gen.GenRubber.
 Import ListNotations.
 Open Scope Z_scope.
 
@@ -104,11 +104,10 @@ Theorem C14_mor_shift : forall (c : Qc) (h : Z) (y : list Qc),
 Proof. intros. split; [apply mor_shift|apply tophat_shift]. Qed.
 Print Assumptions C14_mor_shift.
 
-(* ---- rubberband: the kept vertices are the cyclic sub-path from the position of the smallest index to the
-   position of the largest one.  PARTIAL: that this path is the LOWER hull (convex, below the data) needs the
-   hypothesis that qhull lists 2-D hull vertices counter-clockwise; it is not a theorem here (oracle + exact
-   rational hull in the harness).  Full statement: rubberband(y) = linear interpolation of the lower convex
-   hull of (x, y). *)
+(* ---- rubberband ---- *)
+(* the selection logic alone (no geometry): the kept vertices are the cyclic sub-path from the position of the
+   smallest index to the position of the largest one.  Named _partial because it says nothing about hulls; the
+   geometric statement is C14_rubberband_lower_hull below. *)
 Theorem C14_rubberband_rotation_partial : forall v : list Z, v <> [] ->
   let n := lenZ v in let mn := argmin v in let mx := argmax v in
   0 <= mn < n /\ 0 <= mx < n /\
@@ -118,6 +117,65 @@ Proof. intros v Hv. cbv zeta. split; [apply argmin_range; auto|]. split; [apply 
   split; [intros x Hx; split; [apply argmin_spec|apply argmax_spec]; auto|].
   apply rb_select_rotation; auto. Qed.
 Print Assumptions C14_rubberband_rotation_partial.
+
+(* the constant added to argmax in the source (translated on every run) is the one the model uses; the
+   translator also pins  hull_data = np.vstack((self.x, y)).T,  ConvexHull(hull_data[segment]).vertices  and
+   np.interp(self.x, self.x[mask], y[mask]) *)
+Theorem C14_rubberband_source : forall v, rb_select_off rb_max_offset v = rb_select v /\
+  rb_points_are_x_y = true /\ rb_interp_over_x_mask = true.
+Proof. intros v. repeat split. Qed.
+Print Assumptions C14_rubberband_source.
+
+(* Under qhull's contract for ConvexHull(column_stack((x, y))).vertices -- vertices are distinct data points, at
+   least three, listed counter-clockwise so that every data point is on the left of (or on) every directed edge
+   (cross >= 0), strictly convex (consecutive vertices turn strictly left) -- and x strictly increasing, the kept
+   vertices w 0 .. w m are the LOWER hull: strictly increasing indices from 0 to n-1 (so the boolean mask lists
+   them in path order), every segment's line is at or below EVERY data point, every data index lies between two
+   consecutive nodes, slopes strictly increase (convex), the interpolant equals the data at the nodes, and
+   np.interp through the nodes is at or below the data at every point. *)
+Theorem C14_rubberband_lower_hull : forall (n : Z) (x y : Z -> Q) (v : list Z),
+  (forall i j, 0 <= i -> i < j -> j < n -> (x i < x j)%Q) ->
+  (forall a, In a v -> 0 <= a < n) -> NoDup v -> 3 <= lenZ v ->
+  (forall p k, 0 <= k < n -> (0 <= cross x y (vat v p) (vat v (p + 1)%Z) k)%Q) ->
+  (forall p, (0 < cross x y (vat v p) (vat v (p + 1)%Z) (vat v (p + 2)%Z))%Q) ->
+  let m := msteps v in let w := w v in
+  rb_select v = map w (zrange 0 (m + 1)) /\ 0 < m /\ w 0 = 0 /\ w m = n - 1 /\
+  (forall j, 0 <= j < m -> w j < w (j + 1)) /\
+  (forall j k, 0 <= j < m -> 0 <= k < n -> (seg x y (w j) (w (j + 1)%Z) (x k) <= y k)%Q) /\
+  (forall k, 0 <= k < n -> exists j, 0 <= j < m /\ w j <= k <= w (j + 1)) /\
+  (forall j, 0 <= j -> j + 2 <= m ->
+     ((y (w (j + 1)%Z) - y (w j)) * (x (w (j + 2)%Z) - x (w (j + 1)%Z)) <
+      (y (w (j + 2)%Z) - y (w (j + 1)%Z)) * (x (w (j + 1)%Z) - x (w j)))%Q) /\
+  (forall a b, (x a < x b)%Q -> (seg x y a b (x a) == y a)%Q /\ (seg x y a b (x b) == y b)%Q) /\
+  (forall k, 0 <= k < n -> (interp x y (rb_select v) (x k) <= y k)%Q).
+Proof. intros n x y v H1 H2 H3 H4 H5 H6. exact (lower_hull n x y v H1 H2 H3 H4 H5 H6). Qed.
+Print Assumptions C14_rubberband_lower_hull.
+
+Example C14_rubberband_contract_nonvacuous :
+  let n := 4 in let x := fun i => inject_Z i in let y := fun i => inject_Z (nthZ 0 [1; 0; 2; 1] i) in
+  let v := [1; 3; 2; 0] in
+  (forall i j, 0 <= i -> i < j -> j < n -> (x i < x j)%Q) /\
+  (forall a, In a v -> 0 <= a < n) /\ NoDup v /\ 3 <= lenZ v /\
+  (forall p k, 0 <= k < n -> (0 <= cross x y (vat v p) (vat v (p + 1)) k)%Q) /\
+  (forall p, (0 < cross x y (vat v p) (vat v (p + 1)) (vat v (p + 2)))%Q) /\
+  rb_select v = [0; 1; 3].
+Proof. exact contract_example. Qed.
+
+(* ---- 2-D shift equivariance ---- *)
+Theorem C14_monotone_commute_2d : forall (A B : Type) (leA : A -> A -> bool) (leB : B -> B -> bool),
+  total leA -> transitive leA -> total leB -> transitive leB -> antisym leB ->
+  forall phi : A -> B, (forall a b, leA a b = true -> leB (phi a) (phi b) = true) ->
+  forall (nr nc hr hc : Z) (y : list A), 0 < nr -> 0 < nc -> lenZ y = nr * nc ->
+  opening_g leB nr nc hr hc (map phi y) = map phi (opening_g leA nr nc hr hc y).
+Proof. intros A B leA leB tA rA tB rB aB phi Hphi nr nc hr hc y Hr Hc Hl.
+  apply (opening_g_commute A B leA leB tA rA tB rB aB phi Hphi nr nc hr hc Hr Hc y Hl). Qed.
+Print Assumptions C14_monotone_commute_2d.
+
+Theorem C14_mor2d_shift : forall (c : Qc) (nr nc hr hc : Z) (y : list Qc), 0 < nr -> 0 < nc -> lenZ y = nr * nc ->
+  mor2 Num_Qc nr nc hr hc (map (sh c) y) = map (sh c) (mor2 Num_Qc nr nc hr hc y) /\
+  tophat2 Num_Qc nr nc hr hc (map (sh c) y) = map (sh c) (tophat2 Num_Qc nr nc hr hc y).
+Proof. intros c nr nc hr hc y Hr Hc Hl. split; [apply mor2_shift|apply tophat2_shift]; auto. Qed.
+Print Assumptions C14_mor2d_shift.
 
 Example C14_rubberband_example :
   rb_select [4; 2; 0; 1; 5; 6] = [0; 1; 5; 6] /\ rb_select [1; 5; 6; 4; 2; 0] = [0; 1; 5; 6].
